@@ -82,6 +82,7 @@ func expected(c Case) (int, http.Header, []byte, []int) {
 
 func runFree(c Case) FreeOut {
 	out := FreeOut{ID: c.ID}
+	setNames(c.Names)
 	rng := rand.New(rand.NewSource(int64(c.ID)*7919 + 1))
 	wantCode, wantHdr, wantBody, flushedAt := expected(c)
 	h0 := http.Header{}
